@@ -822,7 +822,8 @@ Proof.
   assert (Hz : forall i, (i < n)%nat -> z i = 0).
   { apply (tri_lower_unique n unit T z D). intros i Hi. unfold mv, z.
     rewrite (sumr_ext 0 n _ (fun j => sumr 0 n (fun k => (tri false unit T i j * X k j) * v k) + - (tri false unit T i j * y j))).
-    2:{ intros j Hj. rewrite sumr_mul_r. rewrite <- sumr_mul_l. rewrite sumr_mul_r. ring. }
+    2:{ intros j Hj. rewrite (sumr_ext 0 n (fun k => tri false unit T i j * X k j * v k) (fun k => tri false unit T i j * (X k j * v k))) by (intros; ring).
+      rewrite sumr_mul_l. ring. }
     rewrite sumr_add. rewrite sumr_swap.
     rewrite (sumr_ext 0 n (fun j => sumr 0 n (fun i0 => tri false unit T i i0 * X j i0 * v j)) (fun k => unit_vec A F k i * v k)).
     2:{ intros k Hk. rewrite sumr_mul_r. f_equal. apply (HX k i); lia. }
